@@ -48,7 +48,7 @@ CHECKS = {
         text="BlockMean.filter compared per block with exact rational means/variances under each of the three documented weighting rules (both "
              "variance conventions admitted for the unweighted path), weights in (0,1] with a 1 present, inputs byte-identical afterwards (also "
              "read-only), uncertainty without weights rejected; variance_to_weights compared element-wise with its formula over arrays containing zeros, "
-             "values at and around the tolerance, NaNs, several components, both dtypes, lists/arrays/read-only arrays.",
+             "values at and around the tolerance, NaNs, several components, both dtypes, lists/arrays/read-only arrays. Extra coordinates are dropped or averaged per block as drop_coords says.",
         design_ref="DESIGN.md 5 (C10)",
         note="Cases whose exact block variance lies in [1e-18, 1e-12] are skipped (round-off could cross the 1e-15 tolerance); ddof 0 or 1 accepted consistently per call.",
         technique="property-based testing (Hypothesis) against exact rational per-block statistics",
@@ -58,7 +58,8 @@ CHECKS = {
              "shuffle x balance x seeds for BlockKFold, plus generated layouts (up to 5x5 blocks, populations 0..30, shuffled sample order) for "
              "BlockKFold and BlockShuffleSplit; every split is checked to be a partition with no block on both sides; BlockKFold folds are non-empty, "
              "disjoint, covering, balanced within one block population (+n_splits) or equal in block count after the documented fallback; "
-             "BlockShuffleSplit tests the number of blocks scikit-learn prescribes, picks the best-balanced candidate, and both are reproducible.",
+             "BlockShuffleSplit tests the number of blocks scikit-learn prescribes, picks the best-balanced candidate, and both are reproducible. A splitter object "
+             "reused on a second layout must answer like a fresh one; partition_by_sum (the balancing step) is enumerated over all small arrays and part counts.",
         design_ref="DESIGN.md 5 (C11)",
         note="Membership known by construction (region inferred, corner points pin the bounding box); BlockShuffleSplit candidates assumed to be consecutive "
              "splits of one seeded scikit-learn ShuffleSplit stream over the occupied block ids.",
@@ -141,7 +142,7 @@ CHECKS = {
     ),
     "C04": dict(
         text="Metamorphic pairs of fit/predict executions per gridder (10 kinds): the same element sequence as 2-D/Fortran/strided/pandas Series (also with "
-             "a reversed index) arrays, int64/int32 dtypes of integer-valued coordinates/data/queries, appended extra coordinates -> predictions agree to "
+             "a reversed index) arrays, signed/unsigned 8..64-bit integer dtypes of integer-valued coordinates/data/queries, nearly regular 2-D queries, appended extra coordinates -> predictions agree to "
              "1e-12 and have the query's shape; permutations of the data points -> agreement within a kappa-derived bound; linear combinations of data "
              "-> linear combinations of predictions for the gridders that are linear in the data.",
         design_ref="DESIGN.md 5 (C04)",
